@@ -140,6 +140,7 @@ def parseOp : List String → Option Op
     let a ← toI64? a
     some (.setdel db rp id a)
   | ["dropshard", id] => (toId? id).map .dropshard
+  | ["pre", a, b] => do some (.pre (← toI64? a) (← toI64? b))
   | _ => none
 
 /-! ### parsing answers -/
